@@ -6,6 +6,7 @@ package main
 
 import (
 	"fmt"
+	"os"
 	"sort"
 	"strings"
 )
@@ -59,6 +60,7 @@ type Explorer struct {
 	dom             map[string]*byteDom
 	DomDecided      int
 	StubRefinements int
+	StaleModels     int
 }
 
 func NewExplorer(s *Solver) *Explorer {
@@ -69,7 +71,9 @@ func (e *Explorer) beginRun() {
 	e.depth = 0
 	e.pc = e.pc[:0]
 	e.model = Model{}
-	e.modelOK = true // empty pc: any assignment works; missing vars evaluate as 0
+	// empty pc: any assignment works (missing vars evaluate as 0) -- but only when no decision prefix
+	// is replayed: while a prefix is replayed the model is unknown until its last decision restores it
+	e.modelOK = e.replayLen == 0
 	e.dom = nil
 	e.solver.Reset()
 }
@@ -128,6 +132,10 @@ func (e *Explorer) choose(label string, conds []*Term) int {
 		}
 		if e.depth == e.replayLen-1 {
 			if d.takenModel != nil {
+				if os.Getenv("GOSYM_DEBUG_MODEL") != "" && idx < len(conds) && conds[idx] != nil {
+					ok, known := d.takenModel.EvalBool(conds[idx])
+					fmt.Fprintf(os.Stderr, "REPLAY decision %q idx=%d: cond under takenModel = %v (known %v), model size %d\n", label, idx, ok, known, len(d.takenModel))
+				}
 				e.model, e.modelOK = d.takenModel, true
 			} else {
 				e.modelOK = false
